@@ -29,6 +29,9 @@ type C10Case struct {
 	ExpectError bool   `json:"expect_error,omitempty"`
 	Changes     int    `json:"changes"` // number of context changes in the history
 	Events      string `json:"events"`  // rendered history, for the report
+	// Via: which constructor hands the catalog to the reader: 0 NewReaderCat,
+	// 1 System.NewReader, 2 System.NewReaderBytes, 3 System.NewReaderString.
+	Via int `json:"via,omitempty"`
 }
 
 type c10Expect struct {
@@ -62,7 +65,17 @@ func ionCatalog(ss []SharedJ) ion.Catalog {
 // value the MaxID of Reader.SymbolTable().
 func c10Observe(c C10Case) (vals []model.Value, maxIDs []int, err error) {
 	err = drive.Guard(func() error {
-		r := ion.NewReaderCat(bytes.NewReader(c.Doc), ionCatalog(c.Catalog))
+		var r ion.Reader
+		switch sys := (ion.System{Catalog: ionCatalog(c.Catalog)}); c.Via {
+		case 1:
+			r = sys.NewReader(bytes.NewReader(c.Doc))
+		case 2:
+			r = sys.NewReaderBytes(c.Doc)
+		case 3:
+			r = sys.NewReaderString(string(c.Doc))
+		default:
+			r = ion.NewReaderCat(bytes.NewReader(c.Doc), ionCatalog(c.Catalog))
+		}
 		for r.Next() {
 			v, e := drive.ObserveCurrent(r)
 			if e != nil {
@@ -88,7 +101,7 @@ func runC10(c C10Case) string {
 		format = "binary"
 	}
 	exp := c10Reference(c)
-	classes := []string{"format." + format}
+	classes := []string{"format." + format, fmt.Sprintf("constructor.%d", c.Via)}
 	if c.ExpectError {
 		classes = append(classes, "unresolvable-import")
 	}
@@ -274,7 +287,11 @@ func c10Value(t *rapid.T, tab *refbin.SymTab, textOK bool, depth int) model.Valu
 	return v
 }
 
-func genC10(t *rapid.T) C10Case { return c10History(t, true, true) }
+func genC10(t *rapid.T) C10Case {
+	c := c10History(t, true, true)
+	c.Via = gen.Pick(t, []int{0, 0, 0, 1, 2, 3})
+	return c
+}
 
 // c10History draws a history. undefinedIDs: symbols with unknown text may use
 // the ID of a placeholder slot (not only $0). allowError: the history may end
